@@ -3,7 +3,8 @@ Line-protocol driver for C07.
 request : cmp <eco> <hexA> <hexB>           (eco: ecosystem name with ' ' written as '_'; "-" = empty string)
           tri <eco> <hexA> <hexB> <hexC>
 reply   : cmp → r=<a?b> rr=<b?a> ra=<a?a> rb=<b?b> acc=<xy> gv=<xy> kf=<xy> [spec=<lt|eq|gt>]
-                (semver-like family, both strings canonical semver: spec = semver.org §11 precedence)
+                (semver-like, Debian/Ubuntu, PyPI, RubyGems, NuGet, CRAN: when both strings read as canonical
+                 versions, spec = the verdict of the ecosystem's published rule, Spec/Semantic/*.lean)
           tri → ab=<a?b> bc=<b?c> ac=<a?c> acc=<xyz> gv=<xyz> kf=<xyz>
           results are lt|eq|gt|err|panic, or `unsup` for an ecosystem `Parse` does not know.
           acc = Parse accepted the string; gv = grammar-valid (domain of the transitivity claim);
@@ -11,6 +12,11 @@ reply   : cmp → r=<a?b> rr=<b?a> ra=<a?a> rb=<b?b> acc=<xy> gv=<xy> kf=<xy> [s
 -/
 import Scalibr.Base.Wire
 import Scalibr.Spec.Semantic
+import Scalibr.Spec.Semantic.Debian
+import Scalibr.Spec.Semantic.PyPI
+import Scalibr.Spec.Semantic.RubyGems
+import Scalibr.Spec.Semantic.NuGet
+import Scalibr.Spec.Semantic.Cran
 open Scalibr Scalibr.Semantic Scalibr.Wire
 
 def decodeStr (h : String) : Option (List Char) :=
@@ -24,11 +30,34 @@ def flags (f : Fam) (xs : List (List Char)) : String :=
   let kf := String.join (xs.map fun s => boolStr (knownClass f s))
   s!"acc={acc} gv={gv} kf={kf}"
 
+def specStr (o : Ordering) : String := s!" spec={(Outcome.ofOrd o).str}"
+
+/-- the published rule's verdict, when both strings read as canonical versions of the ecosystem -/
 def specFields (f : Fam) (a b : List Char) : String :=
   match f with
   | .semver =>
     match specParse a, specParse b with
-    | some x, some y => s!" spec={(Outcome.ofOrd (specCmp x y)).str}"
+    | some x, some y => specStr (specCmp x y)
+    | _, _ => ""
+  | .debian =>
+    match DebSpec.specParse a, DebSpec.specParse b with
+    | some x, some y => specStr (DebSpec.specCmp x y)
+    | _, _ => ""
+  | .pypi =>
+    match PepSpec.specParse a, PepSpec.specParse b with
+    | some x, some y => specStr (PepSpec.specCmp x y)
+    | _, _ => ""
+  | .rubygems =>
+    match RubySpec.specParse a, RubySpec.specParse b with
+    | some x, some y => specStr (RubySpec.specCmp x y)
+    | _, _ => ""
+  | .nuget =>
+    match NuGetSpec.specParse a, NuGetSpec.specParse b with
+    | some x, some y => specStr (NuGetSpec.specCmp x y)
+    | _, _ => ""
+  | .cran =>
+    match CranSpec.specParse a, CranSpec.specParse b with
+    | some x, some y => specStr (CranSpec.specCmp x y)
     | _, _ => ""
   | _ => ""
 
